@@ -16,6 +16,7 @@ import (
 	"strings"
 	"time"
 
+	"github.com/gobwas/httphead"
 	"github.com/gobwas/ws"
 	"github.com/gobwas/ws/wsutil"
 
@@ -38,6 +39,10 @@ type cfg struct {
 	builtinTLS bool
 	// wrapConn: Dialer.WrapConn set to a wrapper that hands the conn back unchanged
 	wrapConn bool
+	// longRequest: extension offers, subprotocols and an extra header through a 64-byte write
+	// buffer, so that the request goes out in several writes (some from inside the option and
+	// header writers)
+	longRequest bool
 }
 
 func (c cfg) String() string {
@@ -53,6 +58,9 @@ func (c cfg) String() string {
 	}
 	if c.wrapConn {
 		s += " wrapconn"
+	}
+	if c.longRequest {
+		s += " long-request-small-write-buffer"
 	}
 	return s
 }
@@ -131,6 +139,16 @@ func execute(c *explore.Chooser, cf cfg, t *explore.T) *explore.Fail {
 	}
 	if cf.wrapConn {
 		d.WrapConn = func(c net.Conn) net.Conn { return c }
+	}
+	if cf.longRequest {
+		d.WriteBufferSize = 64
+		d.Protocols = []string{"chat.v1.example", "chat.v2.example"}
+		d.Extensions = []httphead.Option{
+			httphead.NewOption("permessage-deflate", map[string]string{"client_max_window_bits": "", "server_max_window_bits": "10"}),
+			httphead.NewOption("permessage-deflate", map[string]string{"client_max_window_bits": ""}),
+			httphead.NewOption("x-verif-extension", map[string]string{"mode": "long-enough-to-cross-a-buffer"}),
+		}
+		d.Header = ws.HandshakeHeaderString("X-Verif-Extra: " + strings.Repeat("e", 70) + "\r\n")
 	}
 	var out dialOutcome
 	done := make(chan struct{})
@@ -420,6 +438,10 @@ func main() {
 							cfgs = append(cfgs, cfg{ctxKind: ck, timeout: to, peer: p, scheme: sch, via: "debug"},
 								cfg{ctxKind: ck, timeout: to, peer: p, scheme: sch, partialWrites: true},
 								cfg{ctxKind: ck, timeout: to, peer: p, scheme: sch, via: "debug", partialWrites: true})
+						}
+						if sch == "ws" && (p == "responsive1" || p == "silent0") && to != "long" {
+							cfgs = append(cfgs, cfg{ctxKind: ck, timeout: to, peer: p, scheme: sch, longRequest: true},
+								cfg{ctxKind: ck, timeout: to, peer: p, scheme: sch, longRequest: true, partialWrites: true})
 						}
 						if ck != "background" && sch == "ws" && (p == "responsive1" || p == "silent0") {
 							cfgs = append(cfgs, cfg{ctxKind: ck, timeout: to, peer: p, scheme: sch, preCancelled: true})
